@@ -450,6 +450,13 @@ class Task(Value, Generic[P, R]):
             task_options_hash = [get_type_registry().get_hash(self._task_options_override)]
         else:
             task_options_hash = []
+        if self._export_options:
+            # Which overrides are exported to child jobs is part of the identity of the task
+            # value: `t.options(executor="a")` and `t.export_options(executor="a")` differ.
+            # Tasks without exported options keep their historical hash.
+            task_options_hash = task_options_hash + [
+                hash_struct(["export_options", sorted(self._export_options)])
+            ]
 
         if self._hash_includes:
             # Sort to avoid order dependence on the includes.
